@@ -353,6 +353,37 @@ def r16_5(run, model):
     run.floor("dependency-environment inserts", n, 6)
 
 
+def r16_7(run, model):
+    run.rule("R16.7", "dependency edges are the imports as written: between collect_imports and the PackageUnit nothing removes a name from the "
+                      "import set (a self-import is a cycle of length one and must reach the cycle check); and every core named on the link "
+                      "command line reaches link_cores, which owns the duplicate test (no filtering in the CLI)")
+    PK = "crates/compiler/src/pipeline/packages.rs"
+    f = model.fn("load_package", PK)
+    removers = sorted({c["method"] for c in S.walk(f.body) if c["k"] == "MethodCall" and c["method"] in ("remove", "retain", "swap_remove", "shift_remove", "drain", "clear", "difference")
+                       and "imports" in S.norm_ws(run.facts.text(PK, c["recv"]["sp"]))})
+    bound = [l for l in S.find(f.body, "Local") if l["pat"]["k"] == "PIdent" and l["pat"]["name"] == "imports"]
+    if not bound:
+        raise AnalysisIncomplete("load_package: `imports` local not found")
+    filt = any(re.search(r"\.filter\(|\.retain\(", S.norm_ws(run.facts.text(PK, l["init"]["sp"]))) for l in bound if l.get("init") is not None)
+    run.ob("R16.7", "load_package|import set is not edited", not removers and not filt, site(PK, bound[0]["sp"]),
+           f"operations that drop imports: {removers or 'none'}; filtered at construction: {filt}",
+           witness="package Lib; import Lib; is accepted: the self edge never reaches the cycle detection")
+    MAIN = "crates/compiler/src/main.rs"
+    g = model.opt_fn("execute_link", MAIN)
+    if g is None or g.body is None:
+        raise AnalysisIncomplete("execute_link not found")
+    for loop in S.find(g.body, "For"):
+        pushes = [c for c in S.walk(loop["body"]) if c["k"] == "MethodCall" and c["method"] == "push"]
+        if not pushes:
+            continue
+        skips = [x for x in S.walk_no_closures(loop["body"]) if x["k"] in ("Continue", "Break")]
+        par = S.Parents(loop["body"])
+        cond = [c for c in pushes if any(a["k"] in ("If", "Match") for a in par.ancestors(c))]
+        run.ob("R16.7", "execute_link|every input core reaches link_cores", not skips and not cond, site(MAIN, loop["sp"]),
+               f"{len(skips)} continue/break, {len(cond)} conditional pushes in the loop that collects the cores",
+               witness="link old/Lib.core new/Lib.core Main.core: two builds of Lib that differ only in bodies have one interface hash; the second is dropped silently, argument order decides what Lib::greet() returns")
+
+
 def run(run, model):
     mir = Mir(run.facts)
     run.try_rule(r16_1, model, mir)
@@ -360,6 +391,7 @@ def run(run, model):
     run.try_rule(r16_3, model, mir)
     run.try_rule(r16_4, model)
     run.try_rule(r16_5, model)
+    run.try_rule(r16_7, model)
     from rules import c04
     run.rule("R16.6", "a package missing from the link inputs is reported, not skipped (shared with C04 R04.8)")
     run.try_rule(c04.r04_8, model)
